@@ -147,13 +147,19 @@ def contains(a, b, g=None):
     """python `a in b`"""
     if b.ty == 'const':
         py = b.a['py']
-        if isinstance(py, dict):
+        if isinstance(py, str) and is_strlike(a):
+            return Contains(pystr(py), strz(a))
+        if isinstance(py, dict) and '__enumcls__' in py:
+            items = list(py['members'].values())
+        elif isinstance(py, dict):
             items = list(py.keys())
         else:
             items = list(py)
         return disj([eq(a, lift(x)) for x in items])
     if b.ty in ('tuple', 'list'):
         return disj([eq(a, x) for x in b.a['items']])
+    if b.ty == 'dict':
+        return disj([eq(a, k) for k, _ in b.a['items']])
     if is_strlike(b) and is_strlike(a):
         return Contains(strz(b), strz(a))
     if b.ty == 'seq':
